@@ -128,6 +128,7 @@ func LoadWorld() *World {
 	}
 	w.indexFuncs()
 	w.indexAnchors()
+	theWorld = w
 	return w
 }
 
